@@ -8,6 +8,11 @@ MC  : spec/MC_Validate.tla - every rule graph over 3 (thorough: 4) names with
       per-branch copies of the visited set) report exactly when an
       independent graph analysis finds an undefined or cycle-reaching
       reference; clean graphs evaluate within a reference depth of |names|.
+      spec/EvalSS.tla - the evaluator as a small-step control/continuation
+      machine (one action per step of _check, And, Or, Not, RuleCheck): on
+      every clean rule set evaluation TERMINATES (temporal property checked
+      by TLC under weak fairness, no state constraint), never follows the
+      same name twice at once, and returns the closed-form denotation.
 S2C : the same graphs (sampled in quick) and random graphs on 6 names on
       real Enforcers: check_rules(), check_rules(raise_on_violation=True),
       and generator._validate_policy (with missing file / unknown name /
@@ -30,6 +35,16 @@ CONSTANTS NNames = %d
  Pool = "%s"
 INVARIANT InvReportExact
 INVARIANT InvCleanTerminates
+CHECK_DEADLOCK FALSE
+"""
+
+SS_CFG = """SPECIFICATION Spec
+CONSTANTS NNames = %d
+ Pool = "%s"
+INVARIANT DepthBounded
+INVARIANT NoRepeat
+INVARIANT ResultIsDenotation
+PROPERTY Terminates
 CHECK_DEADLOCK FALSE
 """
 
@@ -170,6 +185,10 @@ def run(ctx):
     if not q:
         res = tlc.run('MC_Validate', MC_CFG % (4, 'pruned'), coverage=True, timeout=3400)
         ctx.add_mc('MC_Validate(4 names, pruned pool)', res)
+    # liveness: on every rule set that validation accepts, the small-step evaluator
+    # (one action per step of _check / And / Or / Not / RuleCheck) terminates under weak fairness
+    res = tlc.run('EvalSS', SS_CFG % (3, 'pruned' if q else 'full'), coverage=not q, timeout=3400)
+    ctx.add_mc('EvalSS(3 names, %s pool): Terminates (liveness), DepthBounded, ResultIsDenotation' % ('pruned' if q else 'full'), res)
     rng = ctx.rng
     cases = []
     names = ['n1', 'n2', 'n3']
